@@ -443,3 +443,12 @@ Theorem C04_bt_regenerates_partial : forall (enum : list N -> list N -> list C06
       glue A rc y = Some T' /\ regen_exact T' A B = true.
 Proof. exact bt_regenerates. Qed.
 Print Assumptions C04_bt_regenerates_partial.
+
+(** the premise [separating] of the two theorems above for the identity match, as the boolean [id_separatingb] that the
+    correspondence evaluates on every case (next to the numbers of components of substrate and pattern) and that the harness
+    recomputes independently with networkx *)
+Theorem C04_separating_boolean : forall (H P : C06_Model.graph),
+  gwf H -> gwf P -> incl (node_ids P) (node_ids H) ->
+  id_separatingb H P = true -> separating H P (id_map (node_ids P)).
+Proof. exact id_separatingb_sound. Qed.
+Print Assumptions C04_separating_boolean.
